@@ -10,7 +10,7 @@ FUNCTIONS = [
     'emitted SQLite SQL text (symbolically evaluated by lv/sqlsem.py over D(K))',
 ]
 ASSUMPTIONS = [
-    'program shape is drawn from the seeded catalogue family "core" (lv/gen.py), not symbolic',
+    'program shape is drawn from the seeded catalogue families "core" and "exprs" (`else if` chains with overlapping conditions and repeated values, nested negations; lv/gen.py), not symbolic',
     'database: <=K rows per extensional table (K=2, lowered to 1 when the slot budget is exceeded), integer cells in [-2^20,2^20], no NULLs',
     'Range(n) unrolled to n<=3 (assumed in the query)',
     'trusted: lv/sqlsem.py semantics of the SQL subset (validated against real SQLite on seeded concrete databases each run), lv/refsem.py reading of docs/learn/logica.md, z3',
@@ -20,7 +20,7 @@ ASSUMPTIONS = [
 
 
 def run():
-  return tvrun.run_tv('C01', {'core': (80, 2000, None)}, FUNCTIONS, ASSUMPTIONS, 'DESIGN.md §3 C01',
+  return tvrun.run_tv('C01', {'core': (80, 2000, None), 'exprs': (8, 64, None)}, FUNCTIONS, ASSUMPTIONS, 'DESIGN.md §3 C01',
                       extra_fn=corpus.run)
 
 
